@@ -19,7 +19,11 @@ the same config FILE also occurs more than once in one history (twice on the com
 the file of the env config / a default config file given again on the command line or to parse_path, the env config
 naming a default config file, a default config file listed twice): every application is one more source at its
 position.  And the prefix of the environment variables is derived from names of several shapes (explicit prefix with a
-dash / in mixed case, prog with a dash and an extension, no prefix; subcommand name with a dash).  Every case builds a
+dash / in mixed case, prog with a dash and an extension, no prefix; subcommand name with a dash).  Every kind of key also
+occurs nested in a group (shape nest: --g.l+, {g: {"l+": ..}}, APP_G__L).  And the judged call may be made on a USED
+parser: one earlier call on the same parser object in a world that differs in nothing / the env prefix / default_env /
+the listed default config files / the content of files and environment, the settings then changed through the public
+properties - the result is a function of the sources at the time of the call.  Every case builds a
 fresh parser, fresh files in a fresh scratch directory and a private environment.  Because the command line
 sequences of every length up to the bound are enumerated, every prefix of every sequence is a case of its own and
 the comparison therefore holds at every intermediate state of the fold.
@@ -47,7 +51,7 @@ META = {
     "level_note": "Trusted: the fold in this file, the rendering of one abstract source into files / environment / argv, "
     "value encoding (every source writes values that name it). Bounded: command line length, four payload kinds per "
     "config source plus the empty kinds (empty values, {}, empty default config files), six shapes of the environment "
-    "prefix (five of them on a reduced set of bases), the same file applied up to four times, seven keys (flat int, flat "
+    "prefix (five of them on a reduced set of bases), the same file applied up to four times, at most one earlier call on a used parser, one group level (shape nest), seven keys (flat int, flat "
     "str, two leaves of one group, List[int], int list with nargs='+', Dict[str,int]); deeper command lines "
     "are explored on a reduced set of non-CLI configurations (stated in the evidence).",
     "design_ref": "DESIGN.md §5 C04",
@@ -99,6 +103,17 @@ SUBNAME = {"dash": "s-x", "prog-dash-ext": "s-x"}
 
 def subname(case):
     return SUBNAME.get((case or {}).get("naming") or "APP", "s")
+
+
+GROUP = "g"  # shape nest: every key lives one level deeper, inside the group g (options --g.a, --g.n.x, --g.l, ...)
+
+
+def keypath(case):
+    """Prefix of the keys of the case's shape as seen from the root parser: "s." / "g." / ""."""
+    shape = (case or {}).get("shape")
+    if shape == "sub":
+        return subname(case) + "."
+    return GROUP + "." if shape == "nest" else ""
 
 
 def env_name(case, key):
@@ -211,44 +226,49 @@ def cli_item(name, pos, shape, d, base=None):
     """-> (argv token or list of tokens, [(key, op, value)...], files to write {name: json})."""
     v = cli_value(pos)
     files = {}
+    g = GROUP + "." if shape == "nest" else ""  # the options are --g.a, --g.l+ ...; config documents are {g: {...}}
+
+    def wr(doc):
+        return {GROUP: doc} if shape == "nest" else doc
+
     if name.startswith(("samefile:", "rootsamefile:")):  # one file per kind, whatever the position
         pk = name.split(":")[1]
         doc = payload(pk, VAL["same"])
         fn = f"{name.split(':')[0]}_{pk}.yaml"
-        files[fn] = {subname(base): doc} if name.startswith("root") else doc
+        files[fn] = {subname(base): doc} if name.startswith("root") else wr(doc)
         return "--cfg=" + os.path.join(d, fn), assignments_of_config(doc), files
     if name.startswith(("again:", "rootagain:")):  # the file exists already (written for the non-CLI source)
         fn, doc = same_source(base, name.split(":")[1])
         return "--cfg=" + os.path.join(d, fn), assignments_of_config(doc), files
     if name == "a":
-        return f"--a={v}", [("a", "set", v)], files
+        return f"--{g}a={v}", [("a", "set", v)], files
     if name == "t":
-        return f"--t=v{v}", [("t", "set", f"v{v}")], files
+        return f"--{g}t=v{v}", [("t", "set", f"v{v}")], files
     if name == "t0":
-        return "--t=", [("t", "set", "")], files
+        return f"--{g}t=", [("t", "set", "")], files
     if name == "m":
-        return f"--m={v}", [("m", "set", [v])], files
+        return f"--{g}m={v}", [("m", "set", [v])], files
     if name == "m2":  # several argv tokens
-        return ["--m", str(v), str(v + 1)], [("m", "set", [v, v + 1])], files
+        return [f"--{g}m", str(v), str(v + 1)], [("m", "set", [v, v + 1])], files
     if name == "a0":
-        return "--a=0", [("a", "set", 0)], files
+        return f"--{g}a=0", [("a", "set", 0)], files
     if name == "l0":
-        return "--l=[]", [("l", "set", [])], files
+        return f"--{g}l=[]", [("l", "set", [])], files
     if name == "d0":
-        return "--d={}", [("d", "set", {})], files
+        return f"--{g}d={{}}", [("d", "set", {})], files
     if name in ("n.x", "n.y"):
-        return f"--{name}={v}", [(name, "set", v)], files
+        return f"--{g}{name}={v}", [(name, "set", v)], files
     if name == "l":
-        return f"--l=[{v}]", [("l", "set", [v])], files
+        return f"--{g}l=[{v}]", [("l", "set", [v])], files
     if name == "l+":
-        return f"--l+={v}", [("l", "append", v)], files
+        return f"--{g}l+={v}", [("l", "append", v)], files
     if name == "l+2":
-        return f"--l+=[{v}, {v + 1}]", [("l", "append", [v, v + 1])], files
+        return f"--{g}l+=[{v}, {v + 1}]", [("l", "append", [v, v + 1])], files
     if name == "d":
         doc = {"k": v, f"c{v}": v}
-        return "--d=" + json.dumps(doc), [("d", "set", doc)], files
+        return f"--{g}d=" + json.dumps(doc), [("d", "set", doc)], files
     if name in ("d.k", "d.p"):
-        return f"--{name}={v}", [("d", "item", (name[2:], v))], files
+        return f"--{g}{name}={v}", [("d", "item", (name[2:], v))], files
     if name == "n":  # whole group given as a string on the command line (needs a group-typed key: shape dc)
         doc = {"x": v}
         return "--n=" + json.dumps(doc), [("n.x", "set", v)], files
@@ -261,11 +281,11 @@ def cli_item(name, pos, shape, d, base=None):
     doc = payload(pk, v)
     if kind_of in ("cfgfile", "rootcfgfile"):
         fn = f"{kind_of}_{pk}_{pos}.yaml"
-        wrapped = {subname(base): doc} if kind_of == "rootcfgfile" else doc
+        wrapped = {subname(base): doc} if kind_of == "rootcfgfile" else wr(doc)
         files[fn] = wrapped
         return "--cfg=" + os.path.join(d, fn), assignments_of_config(doc), files
     if kind_of in ("cfgstr", "rootcfgstr"):
-        wrapped = {subname(base): doc} if kind_of == "rootcfgstr" else doc
+        wrapped = {subname(base): doc} if kind_of == "rootcfgstr" else wr(doc)
         return "--cfg=" + json.dumps(wrapped), assignments_of_config(doc), files
     raise AssertionError(name)
 
@@ -283,42 +303,59 @@ class NGroup:
 def add_keys(parser, shape, J):
     from typing import Dict, List, Optional
 
+    g = GROUP + "." if shape == "nest" else ""  # shape nest: the same keys, all inside the group g
     parser.add_argument("--cfg", action=J.ActionConfigFile)
-    parser.add_argument("--a", type=int, default=1)
-    parser.add_argument("--t", type=str, default="v6")
-    parser.add_argument("--m", type=int, nargs="+", default=[7])
+    parser.add_argument(f"--{g}a", type=int, default=1)
+    parser.add_argument(f"--{g}t", type=str, default="v6")
+    parser.add_argument(f"--{g}m", type=int, nargs="+", default=[7])
     if shape == "dc":
         parser.add_argument("--n", type=NGroup, default=NGroup())
     else:
-        parser.add_argument("--n.x", type=int, default=2)
-        parser.add_argument("--n.y", type=int, default=3)
+        parser.add_argument(f"--{g}n.x", type=int, default=2)
+        parser.add_argument(f"--{g}n.y", type=int, default=3)
     if shape == "flat0":
         parser.add_argument("--l", type=Optional[List[int]], default=None)
         parser.add_argument("--d", type=Optional[Dict[str, int]], default=None)
     else:
-        parser.add_argument("--l", type=List[int], default=[4])
-        parser.add_argument("--d", type=Dict[str, int], default={"p": 5})
+        parser.add_argument(f"--{g}l", type=List[int], default=[4])
+        parser.add_argument(f"--{g}d", type=Dict[str, int], default={"p": 5})
 
 
-def build_parser(case, d, J):
-    shape = case["shape"]
-    mode = case.get("mode", "on")
-    ctor_env = mode in ("on", "envoff", "argoff")
+def listed_files(case, d):
+    """The default_config_files setting of the case (None = the setting is not given at all)."""
     listed = case.get("listed", "all")
     dcf = case.get("dcf") or {}
     if listed in ("all", "again"):
         files = [os.path.join(d, fn) for _slot, fn in DCF_LISTED]
         if listed == "again":  # the first file is listed a second time, after all the others
             files.append(os.path.join(d, DCF_FILE["D1"]))
-    elif listed == "existing":  # only the patterns that match something
+        return files
+    if listed == "existing":  # only the patterns that match something
         files = []
         for slot, fn in DCF_LISTED:
             if (slot == "G" and (dcf.get("Ga") or dcf.get("Gb"))) or dcf.get(slot):
                 files.append(os.path.join(d, fn))
-    else:
-        raise AssertionError(listed)
-    kw = dict(exit_on_error=False, default_env=ctor_env, **NAMING[case.get("naming") or "APP"])
-    if files or listed in ("all", "again"):
+        return files or None
+    if listed == "none":  # the files may exist, but the parser is not told about them
+        return None
+    raise AssertionError(listed)
+
+
+def ctor_env(case):
+    return case.get("mode", "on") in ("on", "envoff", "argoff")
+
+
+def build_parser(case, d, J, target=None):
+    """target: the case whose settings the parser will be given later through its public properties (a parser that is
+    built for one world, used, and then retargeted); a prefix derived from prog needs the prog from the start."""
+    shape = case["shape"]
+    files = listed_files(case, d)
+    naming = dict(NAMING[case.get("naming") or "APP"])
+    if target is not None and "prog" in NAMING[target.get("naming") or "APP"]:
+        assert "prog" not in naming or naming == NAMING[target.get("naming")], "prog is not a settable property"
+        naming["prog"] = NAMING[target["naming"]]["prog"]
+    kw = dict(exit_on_error=False, default_env=ctor_env(case), **naming)
+    if files is not None:
         kw["default_config_files"] = files
     root = J.ArgumentParser(**kw)
     if shape != "sub":
@@ -341,6 +378,8 @@ def build_parser(case, d, J):
 
 
 def wrap(case, doc):
+    if case["shape"] == "nest":
+        return {GROUP: doc}
     return {subname(case): doc} if case["shape"] == "sub" else doc
 
 
@@ -363,7 +402,8 @@ def noncli_sources(case):
             doc = payload(kind, VAL[slot])
             # a str instead of a document = the raw content of the file (an existing but empty file)
             files[DCF_FILE[slot]] = RAW_CONTENT[kind] if kind in RAW_CONTENT else wrap(case, doc)
-            sources.append(("default_config:" + slot, assignments_of_config(doc)))
+            if case.get("listed") != "none":
+                sources.append(("default_config:" + slot, assignments_of_config(doc)))
     if case.get("listed") == "again" and dcf.get("D1"):  # listed twice = applied twice, the second time after D3
         sources.append(("default_config:D1", assignments_of_config(payload(dcf["D1"], VAL["D1"]))))
     on = env_enabled(case)
@@ -386,7 +426,7 @@ def noncli_sources(case):
     ev = []
 
     def var(key):  # name of the variable of a key of the (sub)parser
-        return env_name(case, (subname(case) + "." if case["shape"] == "sub" else "") + key)
+        return env_name(case, keypath(case) + key)
 
     for key in case.get("envvars") or []:
         if key == "a":
@@ -449,8 +489,8 @@ def extract(case, cfg):
     from mc.util import tcanon
 
     ns = cfg
-    if case["shape"] == "sub":
-        ns = cfg.get(subname(case))
+    if case["shape"] in ("sub", "nest"):
+        ns = cfg.get(subname(case) if case["shape"] == "sub" else GROUP)
         if ns is None or not hasattr(ns, "keys"):
             return None, None, ["<no subcommand namespace>"]
     plain = {}
@@ -464,6 +504,80 @@ def extract(case, cfg):
     return plain, {k: tcanon(v) for k, v in plain.items()}, extra
 
 
+def install_world(b, d):
+    """Put the non-CLI sources of b in place: files in d, variables in os.environ.  -> (model sources, variables set)"""
+    pre_sources, files, environ = noncli_sources(b)
+    for fn in sorted(files, reverse=True):  # the files of the glob are created in reverse name order
+        with open(os.path.join(d, fn), "w") as f:
+            if isinstance(files[fn], str):
+                f.write(files[fn])
+            else:
+                json.dump(files[fn], f)
+    for key in ["cfg", "subcommand", "t"] + [keypath(b) + k for k in KEYS + ["cfg"]]:
+        os.environ.pop(env_name(b, key), None)  # nothing inherited under the names this parser reads
+    for k, v in environ.items():
+        if v.startswith("@FILE@"):
+            v = os.path.join(d, v[6:])
+        os.environ[k] = v
+    return pre_sources, {k: os.environ[k] for k in environ}, sorted(files)
+
+
+def remove_world(b, d, files, environ, keep_environ=False):
+    for fn in files:
+        os.unlink(os.path.join(d, fn))
+    if not keep_environ:
+        for k in environ:
+            os.environ.pop(k, None)
+    os.environ.pop("JSONARGPARSE_DEFAULT_ENV", None)
+
+
+def call_kw_of(b):
+    mode = b.get("mode", "on")
+    return {"env": True} if mode == "argon" else {"env": False} if mode == "argoff" else {}
+
+
+# A USED PARSER.  case["reuse"] = {"first": <kind of the first call>, "before": {<settings / sources that differ>}}: the
+# parser object is built for the world `before` (the case with these overrides: another env_prefix, default_env,
+# default_config_files, other file contents / environment), ONE call is made on it in that world, then the world is
+# changed to the one of the case - files and variables rewritten, the parser's settings changed through its public
+# properties env_prefix / default_env / default_config_files - and only then the judged call is made.  The fold does
+# not change: the result of a parse is a function of the sources at the time of the call, not of what the parser object
+# did before.  Variables under a prefix the parser no longer has stay in the environment.
+DIRTY = ["a", "n.x", "n.y", "l+", "d.k", "t", "m"]  # first call "args": a command line that writes every key (values 151..)
+
+
+def before_world(base):
+    r = base.get("reuse")
+    if not r:
+        return None
+    return dict({k: v for k, v in base.items() if k != "reuse"}, **r["before"])
+
+
+def what_changed(base):
+    bw = before_world(base)
+    out = []
+    if (bw.get("naming") or "APP") != (base.get("naming") or "APP"):
+        out.append("env_prefix")
+    if ctor_env(bw) != ctor_env(base):
+        out.append("default_env")
+    if bw.get("listed", "all") != base.get("listed", "all"):
+        out.append("default_config_files")
+    if any(bw.get(k) != base.get(k) for k in ("dcf", "envcfg", "envvars")) and "env_prefix" not in out:
+        out.append("content-of-the-sources")  # (with another prefix the old variables are other variables anyway)
+    return "+".join(out) or "nothing"
+
+
+def retarget(parser, bw, base, d):
+    """Give the used parser the settings of the case through its public properties."""
+    if (bw.get("naming") or "APP") != (base.get("naming") or "APP"):
+        kw = NAMING[base.get("naming") or "APP"]
+        parser.env_prefix = kw.get("env_prefix", True)  # True = derive it from prog
+    if ctor_env(bw) != ctor_env(base):
+        parser.default_env = ctor_env(base)
+    if listed_files(bw, d) != listed_files(base, d):
+        parser.default_config_files = listed_files(base, d)
+
+
 def observe(base, clis):
     """Execute base x each command line (or the single non-CLI call) on the real code, fresh parser per call.
 
@@ -475,33 +589,17 @@ def observe(base, clis):
 
     method = base.get("method", "parse_args")
     shape = base["shape"]
+    reuse = base.get("reuse")
+    bw = before_world(base)
     out = []
     with restored_process_state(), scratch_dir() as d:
-        pre_sources, files, environ = noncli_sources(base)
-        for fn in sorted(files, reverse=True):  # the files of the glob are created in reverse name order
-            with open(os.path.join(d, fn), "w") as f:
-                if isinstance(files[fn], str):
-                    f.write(files[fn])
-                else:
-                    json.dump(files[fn], f)
-        for key in ["cfg", "subcommand", "t"] + [(subname(base) + "." if shape == "sub" else "") + k for k in KEYS + ["cfg"]]:
-            os.environ.pop(env_name(base, key), None)  # nothing inherited under the names this parser reads
-        for k, v in environ.items():
-            if v.startswith("@FILE@"):
-                v = os.path.join(d, v[6:])
-            os.environ[k] = v
-        environ_now = {k: os.environ[k] for k in environ}
-        call_kw = {}
-        mode = base.get("mode", "on")
-        if mode == "argon":
-            call_kw["env"] = True
-        elif mode == "argoff":
-            call_kw["env"] = False
+        if not reuse:
+            pre_sources, environ_now, _files = install_world(base, d)
+        call_kw = call_kw_of(base)
         written = set()
         for cli in clis:
-            sources = list(pre_sources)
             argv = []
-            parser = build_parser(base, d, J)
+            cli_sources = []
             if method == "parse_args":
                 sub_started = shape != "sub"
                 for pos, name in enumerate(cli):
@@ -517,34 +615,69 @@ def observe(base, clis):
                             with open(os.path.join(d, fn), "w") as f:
                                 json.dump(doc, f)
                     argv.extend(tok if isinstance(tok, list) else [tok])
-                    sources.append(("cli:" + name.split(":")[0], assigns))
+                    cli_sources.append(("cli:" + name.split(":")[0], assigns))
                 if not sub_started:
                     argv.append(subname(base))
-                o = outcome(parser.parse_args, list(argv), **call_kw)
-            elif method == "get_defaults":
-                o = outcome(parser.get_defaults)
-            elif method == "parse_env":
-                o = outcome(parser.parse_env)
-            elif method == "parse_env_dict":
-                o = outcome(parser.parse_env, dict(environ_now))
             elif method in ("parse_string", "parse_object", "parse_path"):
                 again = base["given"].startswith("=")  # parse_path is given a file that an earlier source applied already
-                doc = same_source(base, base["given"][1:])[1] if again else payload(base["given"], VAL["given"])
-                sources.append(("given:" + method, assignments_of_config(doc)))
-                doc = wrap(base, copy.deepcopy(doc))
+                gdoc = same_source(base, base["given"][1:])[1] if again else payload(base["given"], VAL["given"])
+                cli_sources.append(("given:" + method, assignments_of_config(gdoc)))
+
+            def do_call(parser, kw, environ_now):
+                if method == "parse_args":
+                    return outcome(parser.parse_args, list(argv), **kw)
+                if method == "get_defaults":
+                    return outcome(parser.get_defaults)
+                if method == "parse_env":
+                    return outcome(parser.parse_env)
+                if method == "parse_env_dict":
+                    return outcome(parser.parse_env, dict(environ_now))
+                doc = wrap(base, copy.deepcopy(gdoc))
                 if again:
                     assert method == "parse_path"
-                    o = outcome(parser.parse_path, os.path.join(d, same_source(base, base["given"][1:])[0]), **call_kw)
-                elif method == "parse_string":
-                    o = outcome(parser.parse_string, json.dumps(doc), **call_kw)
-                elif method == "parse_object":
-                    o = outcome(parser.parse_object, doc, **call_kw)
+                    return outcome(parser.parse_path, os.path.join(d, same_source(base, base["given"][1:])[0]), **kw)
+                if method == "parse_string":
+                    return outcome(parser.parse_string, json.dumps(doc), **kw)
+                if method == "parse_object":
+                    return outcome(parser.parse_object, doc, **kw)
+                with open(os.path.join(d, "given.yaml"), "w") as f:
+                    json.dump(doc, f)
+                return outcome(parser.parse_path, os.path.join(d, "given.yaml"), **kw)
+
+            first_error = None
+            if reuse:
+                _s, env1, files1 = install_world(bw, d)
+                parser = build_parser(bw, d, J, target=base)
+                first = reuse["first"]
+                if first == "args":
+                    dirty = [subname(base)] if shape == "sub" else []
+                    for i, name in enumerate(DIRTY):
+                        tok = cli_item(name, 9 + i, shape, d, base)[0]
+                        dirty.extend(tok if isinstance(tok, list) else [tok])
+                    o1 = outcome(parser.parse_args, dirty, **call_kw_of(bw))
+                elif first == "env":
+                    o1 = outcome(parser.parse_env)
+                elif first == "defaults":
+                    o1 = outcome(parser.get_defaults)
+                elif first == "same":
+                    o1 = do_call(parser, call_kw_of(bw), env1)
                 else:
-                    with open(os.path.join(d, "given.yaml"), "w") as f:
-                        json.dump(doc, f)
-                    o = outcome(parser.parse_path, os.path.join(d, "given.yaml"), **call_kw)
+                    raise AssertionError(first)
+                if o1["kind"] != "ok":
+                    first_error = str({k: v for k, v in o1.items() if k != "value"})[:300].replace(d, "<dir>")
+                # variables under a prefix that the parser no longer has stay where they are
+                remove_world(bw, d, files1, env1, keep_environ=(bw.get("naming") or "APP") != (base.get("naming") or "APP"))
+                pre_sources, environ_now, files2 = install_world(base, d)
+                retarget(parser, bw, base, d)
             else:
-                raise AssertionError(method)
+                parser = build_parser(base, d, J)
+            sources = list(pre_sources) + cli_sources
+            if first_error:
+                o = {"kind": "first-call-on-the-parser-failed", "error": first_error}
+            else:
+                o = do_call(parser, call_kw, environ_now)
+            if reuse:
+                remove_world(base, d, files2, dict(environ_now, **env1))
             rec = {"cli": list(cli), "argv": argv, "sources": sources, "kind": o["kind"], "environ": environ_now}
             if o["kind"] == "ok":
                 rec["plain"], rec["typed"], rec["extra"] = extract(base, o["value"])
@@ -729,7 +862,7 @@ def judge(base, clis):
     """Execute and judge base x clis.  Returns [(cli, [deviation...], info)]."""
     from mc.util import tcanon
 
-    fam = "sub:" if base["shape"] == "sub" else ""
+    fam = {"sub": "sub:", "nest": "group:"}.get(base["shape"], "")
     method = base.get("method", "parse_args")
     init = initial_state(base)
     cache = {tuple(c): o for c, o in zip(clis, observe(base, clis))}
@@ -791,7 +924,7 @@ def judge(base, clis):
                     if o["typed"][k] == tcanon(E[k]):
                         inherited += 1  # this step is right; the state it started from was already wrong
                         continue
-                    what = describe(k, P[k], E[k], o["plain"][k], bool(fam))
+                    what = describe(k, P[k], E[k], o["plain"][k], fam == "sub:")
                     if what == "assignment-had-no-effect" and is_empty_value(E[k]) and cli[-1] in TWIN:
                         ot = get(cli[:-1] + [TWIN[cli[-1]]])
                         if ot["kind"] == "ok" and ot["typed"][k] == tcanon(fold(P, ot["sources"][-1:])[k]):
@@ -816,7 +949,7 @@ def judge(base, clis):
                             name = physical_source_name(base, added)
                             Pk = prev_plain[k] if prev_plain else init[k]
                             gk = oi["plain"][k]
-                            what = describe(k, Pk, wi[k], gk, bool(fam))
+                            what = describe(k, Pk, wi[k], gk, fam == "sub:")
                             if name.endswith("(environment disabled)"):
                                 what = "source-applied-although-the-environment-is-switched-off"
                             if what == "assignment-had-no-effect" and is_empty_value(wi[k]) and twin_base(b_i, added):
@@ -845,6 +978,21 @@ def judge(base, clis):
                         prev_plain = oi["plain"]
             if o["extra"]:
                 devs.append({"signature": f"{fam}unexpected-key-in-result", "detail": f"{o['extra']}; {ctxt}"})
+        if devs and base.get("reuse"):
+            # differential: the same history on a fresh parser (no first call, settings given to the constructor)
+            fresh = judge({k: v for k, v in base.items() if k != "reuse"}, [cli])
+            aux[0] += 1 + fresh[0][2].get("aux", 0)
+            fresh_sigs = {dv["signature"] for dv in fresh[0][1]}
+            own = [dv for dv in devs if dv["signature"] not in fresh_sigs]
+            if own:  # one root cause: something of the first call / the earlier settings is remembered by the parser object
+                devs = [dv for dv in devs if dv["signature"] in fresh_sigs]
+                devs.append(
+                    {
+                        "signature": f"{fam}a-used-parser-gives-another-result-than-a-fresh-one:changed-after-the-first-call={what_changed(base)}",
+                        "detail": f"first call on the parser and what differed then: {base['reuse']}; "
+                        + " | ".join(f"[{dv['signature']}] {dv['detail']}" for dv in own)[:1500],
+                    }
+                )
         writers = {}
         for name, assigns in sources:
             for key, _op, _v in assigns:
@@ -1120,17 +1268,27 @@ def plan(ctx):
     std = list(bases("flat", "subsets", "std"))
     wide = list(bases("flat", "kinds", "std")) + [b for b in bases("flat", "subsets", "wide") if b not in std]
     probe = [[], ["l+"], ["d.k"], ["cfgfile:A"], ["cfgstr:R"], ["cfgfile:A1"], ["cfgstr:N"], ["d.p"]]
-    blocks.append(("wide-sources", wide, probe if quick else list(sequences(A, 2)) + probe[5:]))
+    # quick (since round 3) without d.p (an item of the code default of the dict: behaves like d.k; stays in thorough)
+    blocks.append(("wide-sources", wide, probe[:7] if quick else list(sequences(A, 2)) + probe[5:]))
     # B3 every subset of the default config files x env configs, medium command lines
     # quick: on the six proper, non-empty subsets the env config and the env variables go together (3 instead of 6
     # environment combinations; the other 18 bases stay in B2 with every single item, and in the thorough tier)
     mid = [b for b in std if not quick or len(b["dcf"]) in (0, 4) or bool(b["envcfg"]) == bool(b["envvars"])]
     blocks.append(("subsets-mid", mid, list(sequences(A, 2 if quick else 3))))
     # B4 other declarations of the same keys: the group as a dataclass (whole-group option --n); list / dict unset
-    blocks.append(("shape-dc", list(bases("dc", "two", "std")), list(sequences(A + ["n", "nfile"], 2 if quick else 3))))
-    blocks.append(("shape-flat0", list(bases("flat0", "two", "std")), list(sequences(A, 2 if quick else 3))))
+    # quick (since round 3): on 6 of the 12 bases - default config files and env variables go together, as in B1
+    def six(shape):
+        return [b for b in bases(shape, "two", "std") if not quick or bool(b["dcf"]) == bool(b["envvars"])]
+
+    blocks.append(("shape-dc", six("dc"), list(sequences(A + ["n", "nfile"], 2 if quick else 3))))
+    blocks.append(("shape-flat0", six("flat0"), list(sequences(A, 2 if quick else 3))))
+    # B4b the same keys one level deeper, inside a group g (options --g.l+, documents {g: {"l+": ..}}, variables APP_G__L):
+    #     a list / dict typed key with a dotted name, the group n at depth two
+    blocks.append(("shape-nest", [b for b in six("nest") if bool(b["dcf"]) == bool(b["envvars"])], list(sequences(A, 2 if quick else 3))))
     # B5 every way of switching the environment on and off, both ways of listing the default config files
     modes = list(bases("flat", "two", "std", modes=ALL_MODES, listed=("all", "existing")))
+    if quick:  # (since round 3) the second way of listing with the two plain modes only: it is orthogonal to the switches
+        modes = [b for b in modes if b["listed"] == "all" or b["mode"] in ("on", "off")]
     blocks.append(("env-modes", modes, list(sequences(A, 1 if quick else 2))))
     # B6 the same keys inside a subcommand
     subb = []
@@ -1140,13 +1298,20 @@ def plan(ctx):
     if quick:
         # environment switched off: what differs from "on" is only that the variables must be ignored, which does not
         # depend on the command line -> single items there (the pairs run on the 24 bases with the environment on)
-        blocks.append(("subcommand", [b for b in subb if b["mode"] == "on"], sub_sequences(2)))
-        blocks.append(("subcommand", [b for b in subb if b["mode"] != "on"], sub_sequences(1)))
+        # (since round 3) subcommand named by APP_SUBCOMMAND: pairs on the 6 bases on which default config files and env
+        # variables go together, single items on the other 6
+        def pairs(b):
+            return b["mode"] == "on" and (not b["env_subcommand"] or bool(b["dcf"]) == bool(b["envvars"]))
+
+        blocks.append(("subcommand", [b for b in subb if pairs(b)], sub_sequences(2)))
+        blocks.append(("subcommand", [b for b in subb if not pairs(b)], sub_sequences(1)))
     else:
         blocks.append(("subcommand", subb, sub_sequences(3)))
     # B7 the non-CLI parse methods
-    for shape in ("flat", "dc", "flat0", "sub"):
+    for shape in ("flat", "dc", "flat0", "nest", "sub"):
         dcf_level = "subsets" if quick else "kinds"
+        if shape == "nest":
+            dcf_level = "two" if quick else "subsets"
         if shape != "sub":
             gd = list(bases(shape, "kinds", "none", listed=("all", "existing"), method="get_defaults"))
             blocks.append((f"get_defaults-{shape}", gd, [[]]))
@@ -1158,8 +1323,15 @@ def plan(ctx):
         for m in ("parse_string", "parse_object", "parse_path"):
             kinds = ("R", "A", "A1", "N") if shape != "sub" or not quick else ("R", "A")
             # quick: that a switched-off environment is ignored by these methods is shown on flat and sub only
-            gm = ("on",) if quick and shape in ("dc", "flat0") else ("on", "off")
-            given += list(bases(shape, dcf_level if shape != "sub" else "two", "std", modes=gm, method=m, givens=kinds))
+            gm = ("on",) if quick and shape in ("dc", "flat0", "nest") else ("on", "off")
+            if quick and shape == "flat":  # switched off: on the two extreme default config settings only (since round 3)
+                given += list(bases(shape, dcf_level, "std", modes=("on",), method=m, givens=kinds))
+                given += list(bases(shape, "two", "std", modes=("off",), method=m, givens=kinds))
+                given += list(bases(shape, "two", "std", modes=ALL_MODES[2:], method=m, givens=kinds))
+                continue
+            # quick (since round 3): dc / flat0 on the two extreme default config settings, like nest
+            gl = "two" if shape == "sub" or (quick and shape in ("dc", "flat0")) else dcf_level
+            given += list(bases(shape, gl, "std", modes=gm, method=m, givens=kinds))
             if shape == "flat":
                 given += list(bases(shape, "two", "std", modes=ALL_MODES[2:], method=m, givens=kinds))
         if shape == "sub":
@@ -1184,8 +1356,8 @@ def plan(ctx):
         # all sources absent / all standard / all empty x sequences of three
         line = [b for b in diag if {"": None, "R": "R", "Z": "Z"}[b["dcf"].get("D1", "")] == (b["envcfg"] or [None])[0]]
         blocks.append(("empty-values-cli3", line, list(sequences(E2, 3))))
-    for shape in ("dc", "flat0"):
-        blocks.append((f"empty-values-{shape}", list(empties_bases(shape, small="diag" if quick else True)), list(sequences(E2, 1 if quick else 2))))
+    for shape in ("dc", "flat0", "nest"):
+        blocks.append((f"empty-values-{shape}", list(empties_bases(shape, small="diag" if quick or shape == "nest" else True)), list(sequences(E2, 1 if quick else 2))))
     # B8c the other parse methods and the environment switches on the same bases
     em = []
     for m in ("parse_env", "parse_env_dict"):
@@ -1222,7 +1394,7 @@ def plan(ctx):
         if b["envcfg"] and b["envcfg"][0] == "=D1":
             again = ["again:D1"]  # one and the same file
         blocks.append(("same-file-cli", [b], list(sequences(S + again, n_same))))
-    for shape in ("dc", "flat0"):
+    for shape in ("dc", "flat0", "nest"):
         blocks.append((f"same-file-{shape}", [sbase(shape, full_dcf, ["A", "file"])], list(sequences(S[:4] + ["again:env"], n_same))))
     for dcf, envcfg, es in (({}, None, False), (full_dcf, ["A", "file"], False), (full_dcf, ["R", "file"], True)):
         b = sbase("sub", dcf, envcfg, env_subcommand=es)
@@ -1256,6 +1428,73 @@ def plan(ctx):
         blocks.append(("env-prefix-shapes-methods", nm, [[]]))
         ns = [dict(b, naming=naming, env_subcommand=es) for b in bases("sub", "two", "std") for es in (False, True)]
         blocks.append(("env-prefix-shapes-sub", ns, [[], ["l+"]] if quick else sub_sequences(1)))
+    # B11 A USED PARSER: the parser object has served one call in another world (see before_world) before the judged call
+    P2 = [[], ["l+"]]
+    full_env = (["R", "str"], ENVVARS_ALL)
+
+    def used(b, first, **before):
+        return dict(b, reuse={"first": first, "before": before})
+
+    def other_env(b):
+        # what the variables under the OLD names carry (they stay in the environment): the other env config, the individual
+        # variables present instead of absent and vice versa - so that reading them instead of the new ones shows
+        return {
+            "envcfg": {None: ["R", "str"], "R": ["A", "str"], "A": ["R", "str"]}[(b["envcfg"] or [None])[0]],
+            "envvars": [] if b["envvars"] else ENVVARS_ALL,
+        }
+
+    # B11a nothing changes between the two calls (the first call must not leave anything behind in the parser: defaults
+    #      appended to in place, a remembered config, a remembered subcommand ...)
+    for shape in ("flat", "flat0", "dc", "nest", "sub"):
+        two = [b for b in bases(shape, "two", "std") if (not b["dcf"] and not b["envcfg"] and not b["envvars"]) or (b["dcf"] and (b["envcfg"], b["envvars"]) == full_env)]
+        if shape == "sub":
+            two = [dict(b, env_subcommand=False) for b in two]
+        firsts = ("args", "defaults", "same") + (("env",) if shape != "sub" else ())
+        clis = [[], ["l+"], ["d.k"], ["cfgfile:A"]] + ([["cfgstr:R"], ["a"]] if shape != "sub" else [["rootcfgstr:A"]])
+        blocks.append((f"used-parser-nothing-changed-{shape}", [used(b, f) for b in two for f in firsts], clis if quick else P6 + clis[4:]))
+        if shape != "sub":
+            for m in ("parse_env", "get_defaults"):
+                blocks.append((f"used-parser-nothing-changed-{shape}", [used(dict(b, method=m), f) for b in two for f in ("args", "same")], [[]]))
+    # B11b env_prefix assigned after the first call: every ordered pair of namings (prog itself is not a property, so
+    #      not between the two namings that derive the prefix from different progs)
+    env3 = [(["R", "str"], ENVVARS_ALL), (["A", "str"], []), (None, ENVVARS_ALL)]
+    nb = [b for b in bases("flat", "two", "std") if (b["envcfg"], b["envvars"]) in env3]
+    if quick:  # the default config files only together with the fullest environment
+        nb = [b for b in nb if not b["dcf"] or (b["envcfg"], b["envvars"]) == full_env]
+    for new_n in NAMING:
+        for old_n in NAMING:
+            if old_n == new_n or ("prog" in NAMING[old_n] and "prog" in NAMING[new_n]):
+                continue
+            tb = [dict(b, naming=new_n) for b in nb]
+            blocks.append(("used-parser-env-prefix-changed", [used(b, "env", naming=old_n, **other_env(b)) for b in tb], P2))
+            blocks.append(("used-parser-env-prefix-changed", [used(b, "args", naming=old_n, **other_env(b)) for b in tb], [[]] if quick else P2))
+            blocks.append(("used-parser-env-prefix-changed", [used(dict(b, method="parse_env"), "env", naming=old_n, **other_env(b)) for b in tb], [[]]))
+    # B11c default_env assigned after the first call (on -> off, off -> on)
+    for b in bases("flat", "two", "std", modes=("on", "off")):
+        other = "off" if b["mode"] == "on" else "on"
+        blocks.append(("used-parser-default-env-changed", [used(b, f, mode=other) for f in ("args", "env", "defaults")], P2))
+    # B11d default_config_files assigned after the first call
+    for b in bases("flat", "two", "std", listed=("all", "none", "again")):
+        if not b["dcf"]:
+            continue
+        for was in {"all": ("none", "again"), "none": ("all",), "again": ("existing",)}[b["listed"]]:
+            blocks.append(("used-parser-default-config-files-changed", [used(b, f, listed=was) for f in ("args", "defaults")], P2))
+            blocks.append(("used-parser-default-config-files-changed", [used(dict(b, method="get_defaults"), "defaults", listed=was)], [[]]))
+    # B11e the CONTENT of the sources differs during the first call (other kinds in the default config files, the other
+    #      env config, the env variables present instead of absent and vice versa): nothing read then may be remembered
+    # the files of the case exist with another kind of content (D1, Gb) or not at all (Ga, D3) during the first call; for a
+    # case without default config files all four exist then: files change, appear and disappear between the calls
+    swapped = {"D1": "A", "Gb": "A"}
+    for shape in ("flat", "nest", "sub"):
+        for b in bases(shape, "two", "std"):
+            if shape == "sub":
+                b = dict(b, env_subcommand=False)
+            was = dict(other_env(b), dcf=swapped if b["dcf"] else full_dcf)
+            firsts = ("args", "defaults") + (("env",) if shape != "sub" else ())
+            blocks.append((f"used-parser-content-changed-{shape}", [used(b, f, **was) for f in firsts], P2))
+            if shape != "sub":
+                for m in ("parse_env", "get_defaults"):
+                    blocks.append((f"used-parser-content-changed-{shape}", [used(dict(b, method=m), "same", **was)], [[]]))
     if only:
         blocks = [b for b in blocks if any(b[0].startswith(o) for o in only.split(","))]
     return blocks
@@ -1315,6 +1554,11 @@ def explore(ctx):
         if env_enabled(base) and (base.get("envcfg") or base.get("envvars")):
             per_axis["env-prefix=" + (base.get("naming") or "APP")] += st["n"]
         per_axis["environment=" + ("applies" if env_enabled(base) else "ignored")] += st["n"]
+        if base.get("reuse"):
+            tot["used_parser"] += st["n"]
+            for w in what_changed(base).split("+"):
+                per_axis["used-parser:changed-after-the-first-call=" + w] += st["n"]
+            per_axis["used-parser:first-call=" + base["reuse"]["first"]] += st["n"]
         models.update(st["models"])
         ops.update(st["ops"])
         last.update(st["last"])
@@ -1362,6 +1606,7 @@ def explore(ctx):
         last_source_classes=sorted(last),
         histories_in_which_an_empty_value_overrides_or_is_built_upon=tot["empty_overrides"],
         histories_in_which_the_same_config_file_is_applied_more_than_once=tot["file_twice"],
+        histories_on_a_used_parser=tot["used_parser"],
         env_prefix_shapes=NAMING,
         source_classes_assigning_an_empty_value=sorted(empty),
         source_classes_giving_a_document_that_assigns_nothing=sorted(nothing),
@@ -1373,7 +1618,7 @@ def explore(ctx):
         ctx.require(len(models) > 1000, "more than 1000 distinct final states of the fold")
         ctx.require({"set", "append", "item"} <= ops, "all three update rules exercised")
         want_axes = (
-            [f"shape={x}" for x in ("flat", "dc", "flat0", "sub")]
+            [f"shape={x}" for x in ("flat", "dc", "flat0", "nest", "sub")]
             + [f"mode={x}" for x in ALL_MODES]
             + [f"method={x}" for x in ("parse_args", "get_defaults", "parse_env", "parse_env_dict", "parse_string", "parse_object", "parse_path")]
             + ["environment=applies", "environment=ignored"]
@@ -1393,4 +1638,10 @@ def explore(ctx):
         ctx.require(
             all(per_axis["env-prefix=" + n] >= 100 for n in NAMING),
             "every shape of the environment prefix has at least 100 histories in which environment sources are given and apply",
+        )
+        used_axes = [f"used-parser:changed-after-the-first-call={w}" for w in ("nothing", "env_prefix", "default_env", "default_config_files", "content-of-the-sources")]
+        used_axes += [f"used-parser:first-call={f}" for f in ("args", "env", "defaults", "same")]
+        ctx.require(
+            all(per_axis[a] >= 50 for a in used_axes),
+            "a used parser: every kind of change between the first and the judged call, and every kind of first call, has at least 50 histories",
         )
